@@ -82,7 +82,7 @@ CHECKS["C08"] = {
     "engine": "symx",
     "technique": "solver-enumerated actor signatures (kinds, defaults, dependency flags; Python's validity rules as the precondition) and payload shapes, executed through the real converters and actor_run and compared with an inspect.Signature-based oracle",
     "text": "C08: each parameter gets its entry or its declared default, extras only reach a catch-all, a missing required argument fails the execution, the empty payload runs all-default actors, Basic and Pydantic agree, the encoded return value decodes back.",
-    "note": "finite combinatorial space: the solver contributes enumeration only (no arithmetic); 1-2 (quick) / 1-3 (thorough) parameters; payload values are small ints",
+    "note": "finite combinatorial space: the solver contributes enumeration only (no arithmetic); 1-3 parameters; payload values are small ints",
 }
 CHECKS["C13"] = {
     "engine": "symx+vloop",
